@@ -171,13 +171,14 @@ static void runPar(bool hints, int n, uint64_t seed, int sw, const std::vector<s
 int main() {
     using Plain = Tree<btree_set<Key, detail::comparator<Key>, std::allocator<Key>, BLOCK>>;
     using Del = Tree<btree_delete_set<Key, detail::comparator<Key>, std::allocator<Key>, BLOCK>>;
-    // wider nodes (6 keys): borrowing from a sibling shifts several keys / children, which 3-key nodes never do
-    using Plain6 = Tree<btree_set<Key, detail::comparator<Key>, std::allocator<Key>, BLOCK + 24>>;
-    using Del6 = Tree<btree_delete_set<Key, detail::comparator<Key>, std::allocator<Key>, BLOCK + 24>>;
+    // wide nodes (12 keys: the smallest capacity whose minKeys is 2, so that a node underflows while it still holds a key and
+    // borrowing from a sibling has keys / children to shift -- with 3..11 keys per node a node only underflows when empty)
+    using PlainW = Tree<btree_set<Key, detail::comparator<Key>, std::allocator<Key>, BLOCK + 72>>;
+    using DelW = Tree<btree_delete_set<Key, detail::comparator<Key>, std::allocator<Key>, BLOCK + 72>>;
     std::string line;
     while (std::getline(std::cin, line)) {
         if (line == "maxkeys") {
-            std::cout << Plain::maxKeys() << " " << Del::maxKeys() << " " << Plain6::maxKeys() << " " << Del6::maxKeys() << "\n";
+            std::cout << Plain::maxKeys() << " " << Del::maxKeys() << " " << PlainW::maxKeys() << " " << DelW::maxKeys() << "\n";
             continue;
         }
         std::stringstream ls(line);
@@ -187,10 +188,10 @@ int main() {
         if (mode == "seq") {
             if (kind == "plain")
                 runSeq<Plain, false>(hints, ls);
-            else if (kind == "plain6")
-                runSeq<Plain6, false>(hints, ls);
-            else if (kind == "delete6")
-                runSeq<Del6, true>(hints, ls);
+            else if (kind == "plainw")
+                runSeq<PlainW, false>(hints, ls);
+            else if (kind == "deletew")
+                runSeq<DelW, true>(hints, ls);
             else
                 runSeq<Del, true>(hints, ls);
         } else if (mode == "par") {
@@ -213,10 +214,10 @@ int main() {
             keys.resize(n);
             if (kind == "plain")
                 runPar<Plain>(hints, n, seed, sw, keys);
-            else if (kind == "plain6")
-                runPar<Plain6>(hints, n, seed, sw, keys);
-            else if (kind == "delete6")
-                runPar<Del6>(hints, n, seed, sw, keys);
+            else if (kind == "plainw")
+                runPar<PlainW>(hints, n, seed, sw, keys);
+            else if (kind == "deletew")
+                runPar<DelW>(hints, n, seed, sw, keys);
             else
                 runPar<Del>(hints, n, seed, sw, keys);
         }
